@@ -1725,6 +1725,10 @@ get_function(CPPInstance *function, string description,
       InterrogateDatabase::get_ptr()->update_function(index);
 
     ifunction._flags |= flags;
+    if (function->_storage_class & CPPInstance::SC_virtual) {
+      // One of the overloads is virtual.
+      ifunction._flags |= InterrogateFunction::F_virtual;
+    }
 
     // Also, make sure this particular signature is defined.
     std::pair<InterrogateFunction::Instances::iterator, bool> result =
